@@ -39,7 +39,7 @@ inductive LStep (F : Flags) (o : Obs) (x : Act) : Ev → Act → Eff → Prop
   | promptFail (hp : x.phase = .guards)
       (hc : (x.def_.precondOk && x.def_.prompt && !F.yes &&
         (skipFingerprinting F x || !x.def_.upToDate || o.cancelled ())) = true) :
-      LStep F o x .promptFail (x.stop (.typed 205)) .none
+      LStep F o x .promptFail (x.stop (promptRes F)) .none
   | guardsPassed (hp : x.phase = .guards)
       (hc : (x.def_.precondOk && (!x.def_.prompt || F.yes) &&
         (skipFingerprinting F x || !x.def_.upToDate || o.cancelled ())) = true) :
